@@ -254,6 +254,35 @@ def _field_writes_size_like(F, owner, other):
                     nw += 1
                     if not size_like(F, g, x["rhs"]):
                         return False, nw
+    # writes through a mutable borrow of the field (`&mut self.f` bound to a `counter` reference, or handed out by a small
+    # accessor such as `counters_mut() -> (&mut u32, &mut u32)`): every `*r = ..` / `*r += ..` through a `&mut` integer local in
+    # the borrowing function and in the callers of that function must be size-like as well
+    borrowers = []
+    for g in getattr(F, "all_fns", F.fns):
+        if g.get("body") is None:
+            continue
+        for x in walk(g["body"]):
+            if x.get("k") == "AddrOf" and x.get("mut"):
+                l = _strip_val(x["a"])
+                if isinstance(l, dict) and l.get("k") == "Field" and l["name"] == o["name"] and _nogen((l.get("base_ty") or "").lstrip("&").replace("mut ", "")) == bty:
+                    borrowers.append(g)
+                    break
+    if borrowers:
+        bpaths = {g["path"] for g in borrowers}
+        affected = list(borrowers)
+        for g in getattr(F, "all_fns", F.fns):
+            if g.get("body") is None or g in affected:
+                continue
+            if any(c.get("k") in ("Call", "MethodCall") and (c.get("inst") or c.get("callee") or "") in bpaths for c in walk(g["body"])):
+                affected.append(g)
+        for g in affected:
+            for x in walk(g["body"]):
+                if x.get("k") in ("Assign", "AssignOp"):
+                    l = x["lhs"]
+                    if isinstance(l, dict) and l.get("k") == "Unary" and l.get("op") == "*" and peel(l["a"]).get("k") == "Path" and peel(l["a"]).get("res", {}).get("r") == "local":
+                        nw += 1
+                        if not size_like(F, g, x["rhs"]):
+                            return False, nw
     return True, nw
 
 
@@ -365,6 +394,13 @@ def size_like(F, owner, e, depth=0):
         hid = e["res"]["hid"]
         if hid in lets and "init" in lets[hid] and "Mut" not in (lets[hid]["pat"].get("mode") or ""):
             return size_like(F, owner, lets[hid]["init"], depth)
+        # `let (count, ty) = item;` — a component of a destructured value: judged by where the whole value comes from
+        for st_ in walk(body):
+            if st_.get("k") == "Let" and st_["pat"].get("k") in ("Tuple", "Struct", "TupleStruct") and isinstance(st_.get("init"), dict) \
+                    and any(b.get("k") == "Binding" and b.get("hid") == hid for b in walk(st_["pat"])) and depth < 3:
+                i_ = peel(st_["init"])
+                if i_.get("k") == "Path" and i_.get("res", {}).get("r") == "local":
+                    return size_like(F, owner, st_["init"], depth + 1)
         # closure / for-loop pattern bindings: where do the elements come from?
         for n in walk(body):
             src = None
@@ -695,7 +731,9 @@ def _mutated_between(body, pp, after_sp, before_node):
     """Is place `pp` mutated (mutating method, assignment, `&mut` hand-over) anywhere in the body at or after line `after_sp`?"""
     from vlib.facts import place_path, peel
     for x in walk(body):
-        if not x.get("sp") or x["sp"][0] < after_sp:
+        # position in evaluation order: a node of a helper inlined at a call counts where the call stands (`esp`), not where
+        # the helper's text is
+        if not x.get("sp") or (x.get("esp") or x["sp"])[0] < after_sp:
             continue
         if x.get("k") == "MethodCall" and x["method"] in _MUTATORS and place_path(x["recv"]) == pp:
             return True
